@@ -524,6 +524,27 @@ def x_vs_omitted3(rng, n):
     return ops
 
 
+def reuse_ops_safe(rng, n):
+    """RD3 / RD2 where the first Decode either is accepted (the unchanged library then refuses the second with "same
+    metric") or is rejected before it has recorded anything (empty string, other version, no token at all): whatever the
+    second Decode then *accepts* must hold exactly what is written in it.  (First decodes that fail half-way leave
+    optional metrics behind in the unchanged library; that is recorded in DESIGN.md as outside the quantifier of
+    C09/C10/C14 and those pairs are only offered to C12.)"""
+    ops = []
+    for _ in range(n):
+        L = rng.below(3)
+        if rng.chance(2, 3):
+            first = rng.choice(["", "CVSS:2.0/AV:N", "garbage", "CVSS:3.1", vec.rand_v3(rng, L), vec.rand_v3(rng, L, omit=False),
+                                vec.rand_v3(rng, L), "CVSS:3.1/AV:N/AC:L/PR:N/UI:N/S:U/C:H/I:H/A:H/E:U/RL:O/RC:U" if L else vec.rand_v3(rng, 0)])
+            second = vec.rand_v3(rng, 0) if rng.chance(1, 2) else vec.rand_v3(rng, L)
+            ops.append("RD3 %s %s %s" % (LV[L], hx(first), hx(second)))
+        else:
+            first = rng.choice(["", "garbage", vec.rand_v2(rng, L), vec.rand_v2(rng, L), "AV:N/AC:L/Au:N/C:P/I:P/A:P/E:F/RL:OF/RC:C" if L else vec.rand_v2(rng, 0)])
+            second = vec.rand_v2(rng, 0) if rng.chance(1, 2) else vec.rand_v2(rng, L)
+            ops.append("RD2 %s %s %s" % (LV[L], hx(first), hx(second)))
+    return ops
+
+
 def reuse_ops(rng, n):
     """RD3 / RD2: Decode(first) then Decode(second) on one constructor result.  first: strings rejected before anything is
     recorded (empty, bad prefix, other version), strings rejected half-way (a state is left behind), accepted vectors with
